@@ -33,7 +33,7 @@ def S(k, v="-", p="-"):
 
 
 OK = S("ok", "cl")
-SUCCESS = [OK, S("ok", "chunked"), S("ok_connclose"), S("ok_connclose", "mixed"), S("ok_connclose", "list"), S("ok_surplus", "cl"), S("ok_surplus", "chunked"), S("ok_closedelim"),
+SUCCESS = [OK, S("ok", "chunked"), S("ok_connclose"), S("ok_connclose", "mixed"), S("ok_connclose", "list"), S("ok_surplus", "cl"), S("ok_surplus", "chunked"), S("ok_surplus", "204"), S("ok_closedelim"),
            S("ok_http10"), S("ok_http10_ka"), S("ok_then_fin"), S("ok_1xx"), S("ok_500"), S("ok_204"),
            S("ok_split", "cl", "body"), S("send_short", "-", "first"), S("send_eagain")]
 REQPOS = ["peek", "first", "line", "hdr", "last"]
@@ -66,6 +66,9 @@ def configs(thorough):
     return [
         dict(name="single", callers=[1], nreq=1, methods=ALLM, budgets=[0, 1, 2], steps=SUCCESS + FAULTS, oktail=[OK],
              maxfk=1, reuse=True, idle=False, take=None),
+        # every success variant (keep-alive, close signals, surplus, close-delimited ...) of every method followed by a request
+        dict(name="taint", callers=[1], nreq=2, methods=ALLM, budgets=[0], steps=SUCCESS, oktail=[OK], maxfk=1, reuse=True,
+             idle=False, take=None, later_methods=["GET", "POST"], later_steps=[OK]),
         dict(name="single2", callers=[1], nreq=1, methods=["GET", "POST"], budgets=[2], steps=SEQ2, oktail=[OK],
              maxfk=2, reuse=True, idle=False, take=q(120, None)),
         dict(name="seq2", callers=[1], nreq=2, methods=["GET", "POST"], budgets=[0, 1], steps=SEQ2, oktail=[OK],
@@ -89,15 +92,20 @@ def write_mc(ck, c, devs=(), emit=True, tag=""):
         f.write("---- MODULE %s ----\nEXTENDS HttpRetry\n" % mod)
         f.write("MCCallers == %s\nMCMethods == %s\nMCBudgets == %s\n" % (
             vf.tla(set(c["callers"])), vf.tla(set(c["methods"])), vf.tla(set(c["budgets"]))))
-        f.write("MCSteps == {%s}\nMCOkTail == {%s}\n====\n" % (
+        f.write("MCSteps == {%s}\nMCOkTail == {%s}\n" % (
             ",\n  ".join(vf.tla(s) for s in c["steps"]), ", ".join(vf.tla(s) for s in c["oktail"])))
+        f.write("MCLaterMethods == %s\nMCLaterSteps == {%s}\n====\n" % (
+            vf.tla(set(c.get("later_methods", c["methods"]))), ",\n  ".join(vf.tla(s) for s in c.get("later_steps", c["steps"]))))
     consts = {"Callers": "<- MCCallers", "NReq": c["nreq"], "MethodSet": "<- MCMethods", "BudgetSet": "<- MCBudgets",
-              "StepSet": "<- MCSteps", "OkTail": "<- MCOkTail", "MaxFaultKinds": c["maxfk"], "ReuseCfg": c["reuse"],
+              "StepSet": "<- MCSteps", "LaterMethods": "<- MCLaterMethods", "LaterSteps": "<- MCLaterSteps", "OkTail": "<- MCOkTail", "MaxFaultKinds": c["maxfk"], "ReuseCfg": c["reuse"],
               "AllowIdle": c["idle"], "EmitCases": emit}
     for dv in DEVS:
         consts[dv] = dv in devs
     cfg = os.path.join(d, mod + ".cfg")
-    vf.write_cfg(cfg, constants=consts, invariants=IMPL_INVS + (["Emit"] if emit else []))
+    # NoStuck evaluates ENABLED Next: with the ~1000-step alphabets of the byte-offset sweep that costs minutes, and the
+    # sweep adds positions, not control flow
+    invs = [i for i in IMPL_INVS if not (i == "NoStuck" and c["name"].startswith("sweep"))]
+    vf.write_cfg(cfg, constants=consts, invariants=invs + (["Emit"] if emit else []))
     return os.path.join(d, mod + ".tla"), cfg
 
 
@@ -165,7 +173,7 @@ def run_cases(ck, name, lines, par=None):
         for i, ln in enumerate(lines):
             f.write("%s%d %s\n" % (name, i, ln))
     out_path = os.path.join(ck.work, name + ".ndjson")
-    rc, out = vf.run_driver("drv_httpretry", ["run", cases_path, out_path, par or 3 * vf.NCPU], timeout=1700)
+    rc, out = vf.run_driver("drv_httpretry", ["run", cases_path, out_path, par or 2 * vf.NCPU], timeout=1700)
     if rc != 0:
         raise vf.Infra("drv_httpretry failed: " + out[-2000:])
     events = vf.read_ndjson(out_path)
@@ -182,7 +190,7 @@ def run_cases(ck, name, lines, par=None):
     return execs, out_path
 
 
-def validate_chunks(ck, name, execs, nchunks):
+def validate_chunks(ck, name, execs, nchunks, limit=8):
     """validate the executions in parallel chunks; returns list of (exec index, invariant or None, line in exec)"""
     n = len(execs)
     nchunks = max(1, min(nchunks, (n + 199) // 200))
@@ -205,7 +213,7 @@ def validate_chunks(ck, name, execs, nchunks):
         bad = []
         offset = 0
         # after a rejection, continue behind the rejected execution so that every bad execution of the chunk is found
-        while offset < len(part) and len(bad) < 8:
+        while offset < len(part) and len(bad) < limit:
             q = p if offset == 0 else p + ".rest"
             if offset:
                 with open(q, "w") as f:
@@ -239,6 +247,11 @@ def validate_chunks(ck, name, execs, nchunks):
     return res
 
 
+def validate_all(ck, name, execs):
+    """like validate_chunks, but finds EVERY rejected execution (used for the small re-run batches)"""
+    return validate_chunks(ck, name, execs, 1, limit=len(execs))
+
+
 def judge(ck, name, lines, preds, execs, rerun=True):
     """validate, re-run rejections alone, report; count drift against the model's prediction"""
     ck.evaluations += len(execs)
@@ -260,10 +273,10 @@ def judge(ck, name, lines, preds, execs, rerun=True):
             sum(1 for e in evs if e["e"] == "Call") > 1
         if nontriv:
             ck.nt.add(lines[i])
-        # the model resolves two races nondeterministically (RST at accept seen by connect() or by the exchange; which of
+        # the model resolves two races nondeterministically (close/RST at accept seen by connect() or by the exchange; which of
         # two concurrent callers gets the lease first): the continuation of such a script depends on the branch taken, so
         # its prediction is not compared
-        if preds is not None and preds[i] is not None and "acc_rst" not in lines[i] and "conc=1" not in lines[i]:
+        if preds is not None and preds[i] is not None and "acc_" not in lines[i] and "conc=1" not in lines[i]:
             ob = observed(evs)
             if ob not in preds[i]:
                 drift += 1
@@ -275,21 +288,34 @@ def judge(ck, name, lines, preds, execs, rerun=True):
             "FramingNotRetried) %d" % (name, len(execs), ok_n, len(bad), drift, late))
     todo = bad[:6]
     again = {}
+    need = {}
     if rerun and todo:
-        # never report a rejection that does not repeat when the case is run again on a quiet machine (timing)
-        for k in range(2):
-            ex2, _ = run_cases(ck, "%s_re%d" % (name, k), [lines[i] for (i, inv, line) in todo], par=2)
-            b2 = dict((j, iv) for (j, iv, ln) in validate_chunks(ck, "%s_re%d" % (name, k), ex2, 1))
-            for j, (i, inv, line) in enumerate(todo):
-                if b2.get(j) == inv:
-                    again.setdefault(i, []).append(ex2[j][1])
+        # A rejection is reported only if it shows again when the case is re-run at low parallelism (TimeBound and
+        # FramingNotRetried depend on timely scheduling).  A sequential case is deterministic: 3 re-runs, >= 2 repeats.
+        # Two concurrent callers race for the lease by design: 10 re-runs, >= 1 repeat.
+        relines, owner = [], []
+        for j, (i, inv, line) in enumerate(todo):
+            conc = "conc=1" in lines[i]
+            need[i] = 1 if conc else 2
+            for k in range(10 if conc else 3):
+                relines.append(lines[i])
+                owner.append(j)
+        ex2, _ = run_cases(ck, name + "_re", relines, par=4)
+        b2 = dict((x, iv) for (x, iv, ln) in validate_all(ck, name + "_re", ex2))
+        for x, j in enumerate(owner):
+            i, inv, line = todo[j]
+            if b2.get(x) == inv:
+                again.setdefault(i, []).append(ex2[x][1])
     for (i, inv, line) in todo:
         st, evs = execs[i]
         why = "invariant %s of HttpRetryTrace.tla violated at event %d of the execution" % (inv, line)
-        if rerun and len(again.get(i, [])) < 2:
-            ck.note("rejection of %s (%s) did not repeat when re-run: not reported (%s)" % (name, inv, lines[i]))
+        if rerun and len(again.get(i, [])) < need[i]:
+            ck.note("rejection of %s (%s) did not repeat when re-run (%d of the re-runs): not reported (%s)" % (
+                name, inv, len(again.get(i, [])), lines[i]))
             ck.flaky += 1
             continue
+        if rerun:
+            evs = again[i][0]
         rp = ck.save_replay("%s_%s_%d" % (name, inv, i), {
             "case.txt": lines[i] + "\n", "trace.ndjson": "\n".join(json.dumps(e) for e in evs) + "\n", "why.txt": why + "\n"})
         ck.classify({"spec": "HttpRetryTrace", "invariant": inv, "case_class": case_class(lines[i])},
@@ -334,13 +360,17 @@ def selftest_trace_spec(ck):
                                             call(2, "POST", 0), sr(1, 2, 5, False), ret(2), E]),
         ("waits longer than its timeouts", "TimeBound", [B, call(1, "GET", 0), cc(1, 1), sr(1, 1), ret(1, "hung", 13000), E]),
     ]
-    for i, (what, inv, evs) in enumerate(tests):
+    def go(job):
+        i, (what, inv, evs) = job
         p = os.path.join(ck.work, "selftest%d.ndjson" % i)
         with open(p, "w") as f:
             for e in evs:
                 f.write(json.dumps(e) + "\n")
             f.write('{"e":"Reset"}\n')
-        v = vf.validate_trace(TRACE_TLA, TRACE_CFG, p, tag="C17_self")
+        return what, inv, vf.validate_trace(TRACE_TLA, TRACE_CFG, p, tag="C17_self", xmx="1g")
+    with cf.ThreadPoolExecutor(max_workers=5) as ex:
+        results = list(ex.map(go, list(enumerate(tests))))
+    for what, inv, v in results:
         if v.error:
             raise vf.Infra("trace self-test error: " + v.error)
         if inv is None and not v.accepted:
@@ -360,7 +390,7 @@ def selftest_devs(ck):
 
     def go(dv):
         tla_path, cfg = write_mc(ck, base, devs=[dv], emit=False, tag="_" + dv)
-        return dv, vf.run_tlc(tla_path, cfg, tag="C17_" + dv, workers=2, lib_dirs=[SPECDIR], xmx="2g")
+        return dv, tlc(tla_path, cfg, tag="C17_" + dv, workers=2, lib_dirs=[SPECDIR], xmx="2g")
     with cf.ThreadPoolExecutor(max_workers=5) as ex:
         for dv, r in ex.map(go, list(DEVS)):
             if r.violated != DEVS[dv]:
@@ -371,14 +401,21 @@ def selftest_devs(ck):
 
 
 # ------------------------------------------------------------------------------------------------- the check
+def tlc(*a, **kw):
+    """run_tlc, repeated once when the JVM was killed from outside (shared machine)"""
+    r = vf.run_tlc(*a, **kw)
+    if r.error and r.rc in (137, 143, -9, -15):
+        r = vf.run_tlc(*a, **kw)
+    return r
+
+
 def generate(ck, thorough, cfgs=None):
     main = cfgs is None
     cfgs = cfgs or configs(thorough)
 
     def go(c):
         tla_path, cfg = write_mc(ck, c)
-        return c, vf.run_tlc(tla_path, cfg, tag="C17_" + c["name"], workers=4, lib_dirs=[SPECDIR], coverage=True, xmx="4g",
-                             timeout=1200)
+        return c, tlc(tla_path, cfg, tag="C17_" + c["name"], workers=4, lib_dirs=[SPECDIR], coverage=main, xmx="4g", timeout=1200)
     with cf.ThreadPoolExecutor(max_workers=4) as ex:
         results = list(ex.map(go, cfgs))
     groups = []
@@ -406,6 +443,11 @@ def generate(ck, thorough, cfgs=None):
         if c["take"] is not None and c["take"] < total:
             keys = ck.rng.sample(keys, c["take"])
         ck.note("TLC %s: %s -> %d distinct cases, %d run" % (c["name"], r.summary(), total, len(keys)))
+        if c["take"] is None:
+            used = set(t for k in keys for w in k.split("|")[1:] for t in w.split()[3].split(";"))
+            missing = [step_text(s) for s in c["steps"] if step_text(s) not in used]
+            if missing:
+                raise vf.Infra("generator produced no case with step(s) %s in configuration %s" % (missing, c["name"]))
         groups.append((c["name"], keys, [cases[k] for k in keys], total))
     for a in ACTIONS if main else []:
         if ck.cov.get(a, 0) == 0:
@@ -440,27 +482,30 @@ def run(ck):
     groups = generate(ck, thorough)
     if ck.violations:
         return
-    reqlen = {}
     ck.note("self-tests + case generation: %.0fs" % (time.time() - ck.t0))
-    for name, keys, preds, total in groups:
+    only = [x for x in os.environ.get("C17_ONLY", "").split(",") if x]     # development aid: run some groups only
+    for gi, (name, keys, preds, total) in enumerate(groups):
+        if only and name not in only:
+            continue
         t1 = time.time()
         execs, path = run_cases(ck, name, keys)
         t2 = time.time()
         judge(ck, name, keys, preds, execs)
         ck.note("%s: driver %.0fs, validation %.0fs" % (name, t2 - t1, time.time() - t2))
-        if name == "single":
-            for st, evs in execs:
-                m = [e["m"] for e in evs if e["e"] == "Call"]
-                for e in evs:
-                    if e["e"] == "SReq" and e["full"] and m:
-                        reqlen[m[0]] = e["n"]
-            if execs:
-                ck.sample({"case": keys[0], "predicted": preds[0], "events": execs[0][1]})
-        elif execs:
-            j = min(len(execs) - 1, 3)
-            ck.sample({"case": keys[j], "predicted": preds[j], "events": execs[j][1][:24]})
+        # evidence sample: the first execution of the group with a retry or a taint
+        j = next((i for i, (st, evs) in enumerate(execs) if any(e["e"] == "STaint" for e in evs) or
+                  sum(1 for e in evs if e["e"] == "CConn") > sum(1 for e in evs if e["e"] == "Call")), 0)
+        ck.sample({"case": keys[j], "predicted": preds[j], "events": [dict((k, v) for k, v in e.items() if k != "t")
+                                                                      for e in execs[j][1][:24]]})
     ck.exhaustive = all(len(keys) == total for name, keys, preds, total in groups)
     if thorough:
+        head = "reuse=1 rt=%d idle=0 conc=0 | " % RT
+        execs, _ = run_cases(ck, "lens", [head + "GET 0 0 ok:cl", head + "POST 0 0 ok:cl"], par=2)
+        reqlen = {}
+        for m, (st, evs) in zip(("GET", "POST"), execs):
+            for e in evs:
+                if e["e"] == "SReq" and e["full"]:
+                    reqlen[m] = e["n"]
         if "GET" not in reqlen or "POST" not in reqlen:
             raise vf.Infra("request lengths not observed")
         lens_path = os.path.join(ck.work, "lens.json")
@@ -468,6 +513,8 @@ def run(ck):
         resplen = json.load(open(lens_path))["resp"]
         sweeps = generate(ck, thorough, [sweep_config(m, reqlen, resplen) for m in ("GET", "POST")])
         for name, keys, preds, total in sweeps:
+            if only and "sweep" not in only:
+                continue
             execs, path = run_cases(ck, name, keys)
             judge(ck, name, keys, preds, execs)
         ck.note("byte-offset sweep: request lengths %s, response lengths %s, %d cases" % (
@@ -475,7 +522,7 @@ def run(ck):
     if ck.drift:
         ck.note("model drift total: %d executions differ from the Impl prediction but are accepted by the Abs oracle" % ck.drift)
     if ck.flaky > 5:
-        raise vf.Infra("%d rejections did not repeat when re-run alone: machine too loaded for a verdict" % ck.flaky)
+        raise vf.Infra("%d rejections did not repeat when re-run at low parallelism: machine too loaded for a verdict" % ck.flaky)
 
 
 def replay(ck, path):
